@@ -40,6 +40,8 @@ RecChecks(kt, c, F) ==
        Chk("C09", "size_le_300", Len(c.enc) <= MaxSize),
        Chk("C04", "enc_is_encoding_of_fields", encOk),
        Chk("C08", "pairs_sorted", IsSortedPairs(c.pairs)),
+       \* C04: every record the library returns encodes to bytes that its own decoder takes back as an equal record
+       Chk("C04", "returned_record_decodes_back_to_an_equal_record", c.again # <<FALSE>>),
        \* whatever produced the record: its node id is the id of the key its own public-key accessor returns
        Chk("C10", "nid_from_public_key", c.nid_pk # <<>> => c.nid_pk = <<c.nid>>),
        Chk("TOOL", "rec_facts_match", factsOk)>>
@@ -215,7 +217,9 @@ OutcomeChecks(kt, b, o, D, tab, pAcc, pRej, F) ==
     Chk("C01", "unauthentic_input_accepted:" \o KBase(kt), (o.kind = "ok" /\ F.ok /\ Len(F.secp.pk) \in {0, 33}) => Authentic(kt, F))>>
   \o When(~D.fm,
     <<Chk(pAcc, "valid_record_rejected:" \o KBase(kt), D.verdict = "accept" => o.kind # "err"),
-      Chk(pRej, "invalid_record_accepted:" \o D.why \o ":" \o KBase(kt), D.verdict = "reject" => o.kind # "ok")>>
+      Chk(pRej, "invalid_record_accepted:" \o D.why \o ":" \o KBase(kt), D.verdict = "reject" => o.kind # "ok"),
+      \* "every other input is rejected WITH AN ERROR VALUE": a panic on an invalid input is also charged to the acceptance rule
+      Chk(pRej, "invalid_record_not_rejected_with_an_error_value:" \o KBase(kt), D.verdict = "reject" => o.kind \in {"ok", "err"})>>
     \o When(o.kind = "ok",
          LET c == tab[o.core] IN
          <<Chk("C03", "rec_accessor_panics", c.panics = <<>>),
@@ -275,6 +279,10 @@ DecodeChecks(e) ==
   IN <<Chk("TOOL", "first_item_length", e.ilen = ilen)>>
      \o Flatten([q \in 1..n |-> perKt(q)])
      \o <<Chk("C11", "key_types_agree", agree), Chk("C11", "schemes_isolated", isolated)>>
+     \* C14: a valid record carrying typed fields (every port, every presence combination) is read, so that the
+     \* accessors can be compared at all
+     \o When(e.tag = "typed_decode",
+             <<Chk("C14", "record_with_typed_fields_is_read", \A q \in 1..n : verd[q].v = "accept" => e.res[q].kind = "ok")>>)
      \o ext
 
 \* the record a decode-like event binds to its handle (if any)
